@@ -23,8 +23,8 @@ type VerifPage struct {
 	Set [8]uint32 `json:"set"`
 }
 
-// VerifFootprint mirrors the serialized part of Footprint; floats are carried as their bit patterns.
-type VerifFootprint struct {
+// VerifIndexFootprint mirrors the serialized part of Footprint; floats are carried as their bit patterns.
+type VerifIndexFootprint struct {
 	File     string      `json:"file"`
 	Index    uint16      `json:"index"`
 	Instance uint16      `json:"instance"`
@@ -41,13 +41,13 @@ type VerifFootprint struct {
 type VerifFile struct {
 	Path       string           `json:"path"`
 	ModTime    int64            `json:"mod_time"`
-	Footprints []VerifFootprint `json:"footprints"`
+	Footprints []VerifIndexFootprint `json:"footprints"`
 }
 
 // VerifIndex mirrors systemFontsIndex.
 type VerifIndex []VerifFile
 
-func (vf VerifFootprint) internal() Footprint {
+func (vf VerifIndexFootprint) internal() Footprint {
 	var fp Footprint
 	fp.Location.File = vf.File
 	fp.Location.Index = vf.Index
@@ -74,8 +74,8 @@ func (vf VerifFootprint) internal() Footprint {
 	return fp
 }
 
-func verifFootprint(fp Footprint) VerifFootprint {
-	out := VerifFootprint{
+func verifFootprint(fp Footprint) VerifIndexFootprint {
+	out := VerifIndexFootprint{
 		File: fp.Location.File, Index: fp.Location.Index, Instance: fp.Location.Instance,
 		Family: fp.Family, Langs: [8]uint64(fp.Langs),
 		Style:   uint8(fp.Aspect.Style),
@@ -113,7 +113,7 @@ func verifIndex(ix systemFontsIndex) VerifIndex {
 	for i, f := range ix {
 		out[i].Path = f.path
 		out[i].ModTime = int64(f.modTime)
-		out[i].Footprints = make([]VerifFootprint, len(f.footprints))
+		out[i].Footprints = make([]VerifIndexFootprint, len(f.footprints))
 		for j, fp := range f.footprints {
 			out[i].Footprints[j] = verifFootprint(fp)
 		}
